@@ -1,7 +1,7 @@
 (* Properties/C13.v -- Disabled encodation modes are never used (the parts that are theorems). *)
 From Coq Require Import Arith NArith List Bool.
 From DM Require Import Generated.Symbols Generated.ModeTables Model.Outcome Model.SymbolList Model.Planner Model.PlannerRun Model.Enc
-  Model.Api Spec.Stream16022 Proofs.PlanShape Proofs.EncLatch Proofs.EncAscii Proofs.AsciiMinimal.
+  Model.Api Spec.Stream16022 Proofs.PlanShape Proofs.EncLatch Proofs.EncAscii Proofs.AsciiMinimal Proofs.EncAB.
 Import ListNotations.
 Local Open Scope N_scope.
 
@@ -42,6 +42,20 @@ Theorem C13_ascii_only_no_latch : forall sorter data symbols cw s,
     Forall (fun c => ~ In c [230; 231; 238; 239; 240]) stream_part.
 Proof. exact ascii_only_no_latch. Qed.
 Print Assumptions C13_ascii_only_no_latch.
+
+(* (iv) the stream-level statement for every mode set within {ASCII, Base256} (in particular the configuration
+   {ASCII, Base256}: C40, Text, X12 and EDIFACT disabled): the stream is the rendering of a script all of whose
+   segments are ASCII runs or Base256 fields -- in the formal stream language the only latch such a script contains
+   is 231 -- and every character is carried by one of these two modes (meaning script = data); every byte string,
+   every list, every admissible sort *)
+Theorem C13_ascii_base256_only : forall sorter data symbols modes cw s,
+  (forall k l l', sorter symbols k l = Ok l' -> incl l' l) ->
+  (forall m, enabled modes m = true -> m = Ascii \/ m = Base256) -> bytes_ok data = true ->
+  encode_data_internal (optimize_fn sorter) data symbols None modes false false = Ok (cw, s) ->
+  exists script npad, script_ok script npad = true /\ cw = stream script npad /\ meaning script = data /\
+    Forall (fun sg => match sg with SAscii _ | SB256 _ | SB256End _ => True | _ => False end) script.
+Proof. intros so d sy m cw s HS HM OK H. exact (proj1 (ab_modes_roundtrip so d sy m cw s HS HM OK H)). Qed.
+Print Assumptions C13_ascii_base256_only.
 
 (* what is NOT a theorem yet: that the codewords the six mode encoders write never contain, in ASCII context, a
    value that a reference decoder reads as a latch (this is the stream-level statement C02/T_enc); the check
